@@ -125,6 +125,19 @@ fn vtamper_strat() -> impl Strategy<Value = VTamper> {
     ]
 }
 
+/// key | version (8 bytes, big endian) | value of every record, one after the other: what the tags
+/// are computed over.  Two different record lists with the same concatenation are the known
+/// unframed-input weakness; a collision between lists whose concatenations differ is something else.
+fn concat(recs: &[Rec]) -> Vec<u8> {
+    let mut out = vec![];
+    for (k, v, val) in recs.iter() {
+        out.extend_from_slice(k.as_bytes());
+        out.extend_from_slice(&(*v as i64).to_be_bytes());
+        out.extend_from_slice(val);
+    }
+    out
+}
+
 fn stamper_strat() -> impl Strategy<Value = STamper> {
     let r = || 0u8..5;
     prop_oneof![
@@ -439,8 +452,10 @@ impl C17 {
                 } else if !(same && content == value) {
                     // accepted something that is not exactly what was written under that
                     // key and version
+                    let same_bytes = concat(&[(key.to_string(), version_i as u64, value.to_vec())]) == concat(&[(k2.clone(), v2 as u64, content.clone())]);
+                    let cause = if same_bytes { "unframed-concatenation" } else { tname };
                     return ctx.report(st, Violation::new(
-                        format!("C17:{}:accepted-tampered:{}", layer, tname),
+                        format!("C17:{}:accepted-tampered:{}", layer, cause),
                         format!("wrote ({:?},{},{}) ; storage presented ({:?},{},{} bytes) via {:?} and it was accepted as {:?}",
                             key, version_i, hex::encode(value), k2, v2, s2.len(), tamper, hex::encode(&content)),
                     ));
@@ -498,8 +513,9 @@ impl C17 {
         let name = stamper_name(tamper);
         st.class(format!("{}:{}:{}", layer, name, if t1 == t0 { "same-tag" } else { "different-tag" }));
         if different_set && t1 == t0 {
+            let cause = if concat(&recs) == concat(&r2) { "unframed-concatenation" } else { name };
             return ctx.report(st, Violation::new(
-                format!("C17:{}:collision:{}", layer, name),
+                format!("C17:{}:collision:{}", layer, cause),
                 format!("records {:?} and {:?} ({:?}) authenticate under the same tag {}", recs, r2, tamper, hex::encode(&t0)),
             ));
         }
@@ -586,8 +602,9 @@ impl C17 {
                     let name = stamper_name(tamper);
                     st.class(format!("nonce:tampered:{}:{}", name, if ok { "accepted" } else { "refused" }));
                     if ok && sorted(&r2) != sorted(&recs) {
+                        let cause = if concat(&recs) == concat(&r2) { "unframed-concatenation" } else { name };
                         return ctx.report(st, Violation::new(
-                            format!("C17:nonce:collision:{}", name),
+                            format!("C17:nonce:collision:{}", cause),
                             format!("response for {:?} accepted for {:?} ({:?})", recs, r2, tamper),
                         ));
                     }
